@@ -185,6 +185,10 @@ struct LedgerOp {
     /// how many versions of the chain the replica had seen when it committed this
     /// (index of its base version + 1; 0 for the nil version)
     base_len: usize,
+    /// for undone operations: how many versions the chain had when they were undone (an operation
+    /// that reached the server before - e.g. in a sync whose acknowledgement was lost - is not
+    /// withdrawn by a later undo)
+    undone_when: usize,
 }
 
 pub(crate) struct World {
@@ -209,6 +213,8 @@ pub(crate) struct World {
     epoch: usize,
     /// tasks purged by some replica's expire_tasks
     pub expired: BTreeSet<Uuid>,
+    /// per node: the unsynchronized operations when its current undo action began
+    pre_undo: Vec<Option<Vec<Operation>>>,
 }
 
 impl World {
@@ -417,7 +423,7 @@ pub(crate) async fn commit_ops(n: usize, a: usize, w: &Rc<RefCell<World>>, repli
     let status = if applied { LStatus::Committed } else { LStatus::Failed };
     let base_len = wb.server.borrow().chain.index_of(before.base_version).map(|i| i + 1).unwrap_or(0);
     for s in sops {
-        wb.ledger[n].push(LedgerOp { action: a, sop: s, status: status.clone(), base_len });
+        wb.ledger[n].push(LedgerOp { action: a, sop: s, status: status.clone(), base_len, undone_when: 0 });
     }
     wb.log(|| format!("n{n} a{a} commit {} ops -> {:?} applied={applied}", all_ops.len(), r.as_ref().map_err(|e| e.to_string())));
 }
@@ -553,16 +559,7 @@ async fn do_undo(n: usize, a: usize, w: &Rc<RefCell<World>>, replica: &mut Repli
                 wb.violation("undo.unsynced", "list", format!("node {n} action {a}: undo reported success but the unsynced list is not the prior list minus the undone operations"));
             }
             // mark the most recent committed ledger entries undone
-            let mut k = n_real;
-            for e in wb.ledger[n].iter_mut().rev() {
-                if k == 0 {
-                    break;
-                }
-                if e.status == LStatus::Committed {
-                    e.status = LStatus::Undone;
-                    k -= 1;
-                }
-            }
+            mark_undone(&mut wb, n, n_real);
             wb.probe("undo.ok");
             ws_after_rebuild(&mut wb, n, &format!("action {a} undo"), false, &before, &after);
         }
@@ -579,8 +576,13 @@ async fn do_undo(n: usize, a: usize, w: &Rc<RefCell<World>>, replica: &mut Repli
             if !faulted {
                 wb.violation("undo.error", "unexpected-error", format!("node {n} action {a}: undo failed without an injected fault: {e}"));
             }
+            // a fault after the undo's own transaction committed: the operations are undone
+            if !undo_ops.is_empty() && before.unsynced.len() >= undo_ops.len() && after.unsynced[..] == before.unsynced[..before.unsynced.len() - undo_ops.len()] {
+                mark_undone(&mut wb, n, n_real);
+            }
         }
     }
+    wb.pre_undo[n] = None;
     wb.log(|| format!("n{n} a{a} undo {} ops stale={stale} -> {:?}", undo_ops.len(), r.as_ref().map_err(|e| e.to_string())));
 }
 
@@ -920,7 +922,7 @@ async fn do_expire(n: usize, a: usize, w: &Rc<RefCell<World>>, replica: &mut Rep
             for u in &expect_gone {
                 wb.expired.insert(*u);
                 let base_len = wb.server.borrow().chain.index_of(before.base_version).map(|i| i + 1).unwrap_or(0);
-                wb.ledger[n].push(LedgerOp { action: a, sop: SOp::Delete { uuid: *u }, status: LStatus::Committed, base_len });
+                wb.ledger[n].push(LedgerOp { action: a, sop: SOp::Delete { uuid: *u }, status: LStatus::Committed, base_len, undone_when: 0 });
             }
             if !expect_gone.is_empty() {
                 wb.probe("expire.purged");
@@ -933,6 +935,21 @@ async fn do_expire(n: usize, a: usize, w: &Rc<RefCell<World>>, replica: &mut Rep
         }
     }
     wb.log(|| format!("n{n} a{a} expire at={at} gone={:?} -> {:?}", expect_gone.iter().map(model::short).collect::<Vec<_>>(), r.as_ref().map_err(|e| e.to_string())));
+}
+
+/// The most recent `k` committed operations of node `n` have been undone.
+fn mark_undone(wb: &mut World, n: usize, mut k: usize) {
+    let when = wb.server.borrow().chain.versions.len();
+    for e in wb.ledger[n].iter_mut().rev() {
+        if k == 0 {
+            break;
+        }
+        if e.status == LStatus::Committed {
+            e.status = LStatus::Undone;
+            e.undone_when = when;
+            k -= 1;
+        }
+    }
 }
 
 /// Replica invariant (docs/src/sync-model.md): tasks == M-apply(state_at(base_version), unsynced ops).
@@ -1093,6 +1110,10 @@ fn make_node(n: usize, w: Rc<RefCell<World>>) -> NodeFut {
             };
             begin_action(a);
             let _ = yield_point("act").await;
+            {
+                let pre = if matches!(action, Action::Undo | Action::StaleUndo { .. }) { Some(simstorage::read_store(&w.borrow().stores[n]).unsynced.clone()) } else { None };
+                w.borrow_mut().pre_undo[n] = pre;
+            }
             match &action {
                 Action::Commit { ops } => do_commit(n, a, &w, &mut replica, ops).await,
                 Action::Sync { avoid } => {
@@ -1168,6 +1189,7 @@ fn new_world(sc: &Scenario, want_log: bool) -> W {
         sched_hash: Fnv::default(),
         epoch: 0,
         expired: BTreeSet::new(),
+        pre_undo: vec![None; n],
         sc: sc.clone(),
     }))
 }
@@ -1208,6 +1230,7 @@ fn fork(w: &W) -> W {
         sched_hash: Fnv::default(),
         epoch: wb.epoch,
         expired: wb.expired.clone(),
+        pre_undo: wb.pre_undo.clone(),
         sc: wb.sc.clone(),
     }))
 }
@@ -1316,6 +1339,18 @@ fn run_scripted(w: &W, faults: &[(usize, usize, u32, Decision)], only: Option<&[
                     wb.server.borrow_mut().expect_snapshot.remove(&pick);
                 }
                 w.borrow_mut().probe("node.crash_restart");
+                {
+                    // an undo that was stopped after its transaction committed has still undone
+                    let pre = w.borrow_mut().pre_undo[pick].take();
+                    if let Some(pre) = pre {
+                        let now = simstorage::read_store(&w.borrow().stores[pick]);
+                        if now.unsynced.len() < pre.len() && pre[..now.unsynced.len()] == now.unsynced[..] {
+                            let k = pre[now.unsynced.len()..].iter().filter(|o| !o.is_undo_point()).count();
+                            let mut wb = w.borrow_mut();
+                            mark_undone(&mut wb, pick, k);
+                        }
+                    }
+                }
                 w.borrow_mut().log(|| format!("n{pick} crashed and restarted"));
                 post_check(pick, w, "crash");
                 nodes[pick] = Some(make_node(pick, w.clone()));
@@ -1757,7 +1792,7 @@ pub fn gen_c04(seed: u64, i: u64, thorough: bool) -> Value {
         no_final: false,
         style: 0,
         late: 0,
-        sqlite: false,
+        sqlite: rng.chance(1, if thorough { 30 } else { 500 }),
         ts_unit_ms: *rng.pick(&[0u32, 0, 0, 250, 100, 1]),
         kill_budget: 0,
         sweep_max: 0,
@@ -1766,7 +1801,7 @@ pub fn gen_c04(seed: u64, i: u64, thorough: bool) -> Value {
     serde_json::to_value(sc).unwrap()
 }
 
-pub fn gen_c05(seed: u64, i: u64, _thorough: bool) -> Value {
+pub fn gen_c05(seed: u64, i: u64, thorough: bool) -> Value {
     let s = mix(seed, "C05", i);
     let mut rng = Rng::new(s);
     let nodes = *rng.pick(&[1usize, 1, 2]);
@@ -1807,7 +1842,7 @@ pub fn gen_c05(seed: u64, i: u64, _thorough: bool) -> Value {
         no_final: true,
         style: 0,
         late: 0,
-        sqlite: false,
+        sqlite: rng.chance(1, if thorough { 30 } else { 500 }),
         ts_unit_ms: 0,
         kill_budget: 0,
         sweep_max: 0,
@@ -1816,7 +1851,7 @@ pub fn gen_c05(seed: u64, i: u64, _thorough: bool) -> Value {
     serde_json::to_value(sc).unwrap()
 }
 
-pub fn gen_c07(seed: u64, i: u64, _thorough: bool) -> Value {
+pub fn gen_c07(seed: u64, i: u64, thorough: bool) -> Value {
     let s = mix(seed, "C07", i);
     let mut rng = Rng::new(s);
     let nodes = *rng.pick(&[1usize, 1, 2, 2, 3]);
@@ -1849,7 +1884,7 @@ pub fn gen_c07(seed: u64, i: u64, _thorough: bool) -> Value {
         sched_seed: rng.next_u64(),
         atomic_sync: rng.chance(2, 3),
         bias: 0,
-        faults: vec![],
+        faults: if rng.chance(1, 5) { random_faults(&mut rng, nodes, 4) } else { vec![] },
         urgency_mode: 0,
         srv_seed: rng.next_u64(),
         rounds: vec![],
@@ -1857,7 +1892,7 @@ pub fn gen_c07(seed: u64, i: u64, _thorough: bool) -> Value {
         no_final: false,
         style: 0,
         late: 0,
-        sqlite: false,
+        sqlite: rng.chance(1, if thorough { 40 } else { 400 }),
         ts_unit_ms: 0,
         kill_budget: 0,
         sweep_max: 0,
@@ -1915,7 +1950,9 @@ pub fn gen_c12(seed: u64, i: u64, thorough: bool) -> Value {
         sched_seed: rng.next_u64(),
         atomic_sync: rng.chance(1, 2),
         bias: rng.below(3) as u8,
-        faults: vec![],
+        // (a late joiner whose very first sync fails may go on to edit locally and can then not sync
+        // against a server that has discarded old versions: no faults in runs with late joiners)
+        faults: if late == 0 && rng.chance(1, 4) { random_faults(&mut rng, nodes, 4) } else { vec![] },
         urgency_mode: *rng.pick(&[1u8, 1, 1, 2, 3]),
         srv_seed: rng.next_u64(),
         rounds: vec![],
@@ -2005,7 +2042,7 @@ fn gen_status_intents(rng: &mut Rng, g: &mut GenCfg, max: usize) -> Vec<Intent> 
     v
 }
 
-pub fn gen_c15(seed: u64, i: u64, _thorough: bool) -> Value {
+pub fn gen_c15(seed: u64, i: u64, thorough: bool) -> Value {
     let s = mix(seed, "C15", i);
     let mut rng = Rng::new(s);
     let nodes = *rng.pick(&[1usize, 1, 2, 2, 3]);
@@ -2040,7 +2077,7 @@ pub fn gen_c15(seed: u64, i: u64, _thorough: bool) -> Value {
         no_final: false,
         style: 0,
         late: 0,
-        sqlite: false,
+        sqlite: rng.chance(1, if thorough { 30 } else { 500 }),
         ts_unit_ms: 0,
         kill_budget: 0,
         sweep_max: 0,
@@ -3006,6 +3043,7 @@ fn conservation(wb: &mut World) {
             let occ = by_value.get(val).cloned().unwrap_or_default();
             match e.status {
                 LStatus::Undone | LStatus::Failed => {
+                    let occ: Vec<(usize, usize, usize)> = occ.into_iter().filter(|o| e.status == LStatus::Failed || o.1 >= e.undone_when).collect();
                     if !occ.is_empty() {
                         let what = if e.status == LStatus::Undone { "undone" } else { "never committed" };
                         wb.violation("conservation", if e.status == LStatus::Undone { "undone-sent" } else { "failed-sent" }, format!("an update of node {n} (action {}) that was {what} reached the server: {}", e.action, trunc(val)));
@@ -3059,8 +3097,11 @@ fn conservation(wb: &mut World) {
                     } else {
                         // absent: some other origin's operation must be able to defeat it
                         let k = ts_key(ts);
+                        // (with injected faults a replica's own operation can come back as somebody
+                        // else's: a version the server accepted while the replica never learnt of it)
+                        let faulty_run = !wb.sc.faults.is_empty() || wb.sc.under_test.is_some();
                         let justified = chain_ops.iter().any(|(o, op)| {
-                            *o != n
+                            (*o != n || faulty_run)
                                 && match op {
                                     SOp::Delete { uuid: u } => u == uuid,
                                     SOp::Update { uuid: u, property: p, ts: t2, .. } => u == uuid && p == property && ts_key(t2) >= k,
@@ -3118,6 +3159,14 @@ fn gen_ts(rng: &mut Rng, g: &mut GenCfg) -> i64 {
         2 => -g.ts_counter,
         _ => rng.range(-5, 5),
     }
+}
+
+/// a few faults at seeded (node, action, point) positions: request failures before / after their
+/// effect, storage errors, and process stops (the node is dropped and restarted from its store)
+fn random_faults(rng: &mut Rng, nodes: usize, max: usize) -> Vec<(usize, usize, u32, Decision)> {
+    (0..1 + rng.usize_below(max))
+        .map(|_| (rng.usize_below(nodes), rng.usize_below(10), 1 + rng.below(30) as u32, *rng.pick(&[Decision::FailBefore, Decision::FailAfter, Decision::Crash, Decision::Crash])))
+        .collect()
 }
 
 fn gen_intents(rng: &mut Rng, g: &mut GenCfg, max: usize, allow_undo_point: bool) -> Vec<Intent> {
@@ -3196,7 +3245,7 @@ pub fn gen_c01(seed: u64, i: u64, thorough: bool) -> Value {
         no_final: false,
         style: 0,
         late: 0,
-        sqlite: false,
+        sqlite: rng.chance(1, if thorough { 60 } else { 600 }),
         ts_unit_ms: *rng.pick(&[0u32, 0, 0, 250, 100, 1]),
         kill_budget: 0,
         sweep_max: 0,
@@ -3205,7 +3254,7 @@ pub fn gen_c01(seed: u64, i: u64, thorough: bool) -> Value {
     serde_json::to_value(sc).unwrap()
 }
 
-pub fn gen_c02(seed: u64, i: u64, _thorough: bool) -> Value {
+pub fn gen_c02(seed: u64, i: u64, thorough: bool) -> Value {
     let s = mix(seed, "C02", i);
     let mut rng = Rng::new(s);
     let nodes = *rng.pick(&[2usize, 2, 3, 3, 3, 4]);
@@ -3231,7 +3280,7 @@ pub fn gen_c02(seed: u64, i: u64, _thorough: bool) -> Value {
         sched_seed: rng.next_u64(),
         atomic_sync: false,
         bias: rng.below(3) as u8,
-        faults: vec![],
+        faults: if rng.chance(1, 4) { random_faults(&mut rng, nodes, 4) } else { vec![] },
         urgency_mode: *rng.pick(&[0u8, 0, 1]),
         srv_seed: rng.next_u64(),
         rounds: vec![],
@@ -3239,7 +3288,7 @@ pub fn gen_c02(seed: u64, i: u64, _thorough: bool) -> Value {
         no_final: false,
         style: 0,
         late: 0,
-        sqlite: false,
+        sqlite: rng.chance(1, if thorough { 60 } else { 600 }),
         ts_unit_ms: *rng.pick(&[0u32, 0, 0, 250, 100, 1]),
         kill_budget: 0,
         sweep_max: 0,
